@@ -340,6 +340,26 @@ def main(tier):
                     chk.add_failure({"predicate": repr(p_), "value": ascii(x)}, {"what": "differs from set membership on canonically equivalent / case-variant strings", "implementation": L.outcome_wire(got), "plain_python": L.outcome_wire(want)}, None)
     chk.evaluations += uni_cases
     chk.extra["unicode_equivalence_cases"] = uni_cases
+    # ---- regex_p: one pattern text with different flags, built one after the other in this process: each predicate answers like
+    # re.match with ITS flags (a compiled-pattern cache keyed on the text alone would hand the first one's regex to the others)
+    import re as _re2
+
+    from predicate.regex_predicate import RegexPredicate as _Rx2
+
+    rx_cases = 0
+    for pat, probes in (("ab+c", ["abc", "ABC", "abbc", "xabc", ""]), ("^\\w+$", ["abc", "caf\u00e9", "a b", "ABC"]), ("x.y", ["x\ny", "xay", "XAY"]), ("^b", ["a\nb", "b", "B"])):
+        built = [(fl, _Rx2(pat, fl)) for fl in (_re2.IGNORECASE, 0, _re2.ASCII, _re2.DOTALL, _re2.MULTILINE, _re2.IGNORECASE | _re2.ASCII)]
+        built.append((0, _P0.regex_p(pat)))
+        for fl, p_ in built:
+            for x in probes:
+                rx_cases += 1
+                got, want = L.run(p_, x), ("ok", _re2.match(pat, x, fl) is not None)
+                if got != want:
+                    chk.add_failure({"predicate": f"RegexPredicate({pat!r}, flags={int(fl)})", "value": ascii(x)},
+                                    {"what": "regex_p differs from re.match with the predicate's own pattern and flags (several predicates over one pattern text were built before)",
+                                     "implementation": L.outcome_wire(got), "plain_python": L.outcome_wire(want)}, None)
+    chk.evaluations += rx_cases
+    chk.extra["regex_flag_cases"] = rx_cases
     # ---- the type tests agree with isinstance on EVERY input and at EVERY moment: values whose __class__ is not their type
     # (mock objects with a spec, weak proxies), and a class registered as a virtual subclass between two evaluations
     import collections.abc as _abc
